@@ -510,6 +510,12 @@ func mergeValue(c *Term, a, b Value) (Value, bool) {
 	case PtrVal:
 		y, ok := b.(PtrVal)
 		return x, ok && x.Obj == y.Obj && pathEq(x.Path, y.Path)
+	case SymPtr:
+		y, ok := b.(SymPtr)
+		if !ok || x.Obj != y.Obj || !pathEq(x.Base, y.Base) || x.Off != y.Off || x.N != y.N {
+			return nil, false
+		}
+		return SymPtr{Obj: x.Obj, Base: x.Base, Off: x.Off, N: x.N, Idx: Ite(c, x.Idx, y.Idx)}, true
 	case SliceVal:
 		y, ok := b.(SliceVal)
 		return x, ok && x == y
@@ -687,6 +693,9 @@ func sameValue(a, b Value) bool {
 	case PtrVal:
 		y, ok := b.(PtrVal)
 		return ok && x.Obj == y.Obj && pathEq(x.Path, y.Path)
+	case SymPtr:
+		y, ok := b.(SymPtr)
+		return ok && x.Obj == y.Obj && pathEq(x.Base, y.Base) && x.Off == y.Off && x.N == y.N && x.Idx == y.Idx
 	case SliceVal:
 		y, ok := b.(SliceVal)
 		return ok && x == y
